@@ -1,2 +1,17 @@
 -- root of the library: every Props module (and through them models and proofs)
 import TarsModel.Props.C02
+import TarsModel.Props.C07
+import TarsModel.Props.C20
+import TarsModel.Props.C19
+import TarsModel.Props.C14
+import TarsModel.Props.C18
+import TarsModel.Props.C13
+import TarsModel.Props.C17
+import TarsModel.Props.C04
+import TarsModel.Props.C15
+import TarsModel.Props.C16
+import TarsModel.Props.C03
+import TarsModel.Props.C05
+import TarsModel.Props.C06
+import TarsModel.Props.C10
+import TarsModel.Props.C12
